@@ -521,7 +521,13 @@ int ivw_inotify_init(void)
 	int r;
 	if (sc_fails(ENV_SC_INOTIFY_INIT))
 		return -1;
-	r = inotify_init();
+	{
+		/* fs.inotify.max_user_instances is a per-user limit shared with every other worker and check that
+		 * happens to run; hitting it says nothing about the library, so wait for an instance to free up */
+		int tries = 0;
+		while ((r = inotify_init()) < 0 && errno == EMFILE && tries++ < 20000)
+			usleep(500);
+	}
 	if (r >= 0)
 		set_kind(r, ENV_FD_INOTIFY);
 	return r;
